@@ -320,6 +320,7 @@ def mutate_value(
 
     # If there are any left-over attributes to apply to our value, we do so here.
     if value is not None and value is not MISSING and attrs:
+        _check_accepts_attrs(value, expected_type, attrs)
         if not mutate_safe:
             value = protect_via_deepcopy(value)
             mutate_safe = True
@@ -346,6 +347,7 @@ def mutate_value(
 
     # If `attr_transforms` is provided, transform attributes
     if attr_transforms:
+        _check_accepts_attrs(value, expected_type, attr_transforms)
         if not mutate_safe:
             value = protect_via_deepcopy(value)
             private = True
@@ -358,6 +360,15 @@ def mutate_value(
                     setattr(value, attr, transformed_value)
 
     return value
+
+
+def _check_accepts_attrs(value: Any, expected_type: Optional[Type], attrs: Dict):
+    # A value of the wrong type is reported as such, rather than as whatever
+    # goes wrong when its attributes are assigned.
+    if expected_type is not None and not check_type(value, expected_type):
+        raise TypeError(
+            f"Cannot apply attributes {sorted(attrs)} to `{repr(value)}`: expected a value of type `{type_label(expected_type)}`."
+        )
 
 
 @contextlib.contextmanager
